@@ -31,6 +31,8 @@ pub enum Fault {
     MissingDir,
     DestIsDir,
     Double(Box<Fault>, Box<Fault>),
+    /// The process is killed right before (`after` false) or right after mutating call `at`.
+    Kill { at: usize, after: bool },
 }
 
 impl Fault {
@@ -45,6 +47,8 @@ impl Fault {
             Fault::MissingDir => "missing-dir".into(),
             Fault::DestIsDir => "dest-is-dir".into(),
             Fault::Double(..) => "double".into(),
+            Fault::Kill { after: false, .. } => "killed-before-call".into(),
+            Fault::Kill { after: true, .. } => "killed-after-call".into(),
         }
     }
     fn plan(&self) -> Option<String> {
@@ -53,6 +57,7 @@ impl Fault {
             Fault::Errno { at, errno } => Some(format!("{}:errno={}", at, errno)),
             Fault::Sticky { at, errno } => Some(format!("{}:sticky={}", at, errno)),
             Fault::Short { at, n } => Some(format!("{}:short={}", at, n)),
+            Fault::Kill { at, after } => Some(format!("{}:kill={}", at, *after as u8)),
             Fault::Double(a, b) => match (a.plan(), b.plan()) {
                 (Some(a), Some(b)) => Some(format!("{};{}", a, b)),
                 _ => None,
@@ -71,6 +76,7 @@ impl Fault {
             Fault::MissingDir => J::obj().set("kind", "missing_dir"),
             Fault::DestIsDir => J::obj().set("kind", "dest_is_dir"),
             Fault::Double(a, b) => J::obj().set("kind", "double").set("a", a.to_json()).set("b", b.to_json()),
+            Fault::Kill { at, after } => J::obj().set("kind", "kill").set("at", *at).set("after", *after),
         }
     }
     fn from_json(j: &J) -> Option<Fault> {
@@ -95,6 +101,10 @@ impl Fault {
             },
             "missing_dir" => Fault::MissingDir,
             "dest_is_dir" => Fault::DestIsDir,
+            "kill" => Fault::Kill {
+                at: at()?,
+                after: j.get_bool("after").unwrap_or(false),
+            },
             "double" => Fault::Double(Box::new(Fault::from_json(j.get("a")?)?), Box::new(Fault::from_json(j.get("b")?)?)),
             _ => return None,
         })
@@ -335,6 +345,15 @@ fn compile_once(setup: &Setup, fault: &Fault) -> (Option<(String, String)>, Proc
         !ok_status && matches!(&after, DestState::CharDevice)
     } else if matches!(fault, Fault::DestIsDir) {
         !ok_status && matches!(after, DestState::Directory)
+    } else if matches!(fault, Fault::Kill { .. }) && proc_.signal == Some(9) {
+        // A crash has no exit status to be consistent with: whatever instant it strikes at, the
+        // destination is the old state or the complete new file, never anything in between
+        match (&after, &before, &setup.full) {
+            (DestState::Absent, None, _) => true,
+            (DestState::Bytes(b), Some(prev), _) if b == prev => true,
+            (DestState::Bytes(b), _, Ok(full)) => b == full,
+            _ => false,
+        }
     } else if ok_status {
         matches!((&after, &setup.full), (DestState::Bytes(b), Ok(full)) if b == full)
     } else {
@@ -393,6 +412,8 @@ fn sweep(setup: &Setup, rng: &mut Rng, doubles: usize) -> Vec<Fault> {
         faults.push(Fault::Sticky { at: *j, errno: 28 });
         faults.push(Fault::Short { at: *j, n: 1 });
         faults.push(Fault::Short { at: *j, n: 0 });
+        faults.push(Fault::Kill { at: *j, after: false });
+        faults.push(Fault::Kill { at: *j, after: true });
     }
     faults.push(Fault::Errno { at: 1, errno: 13 });
     faults.push(Fault::Errno { at: 1, errno: 24 });
@@ -653,7 +674,7 @@ impl Check for C08 {
         out
     }
     fn rule(&self) -> String {
-        "Scenario = (program, destination pre-state absent/present, fault). Programs: generated valid programs, half of them with one out-of-range label reference planted at a random statement k (9-, 10- and 11-bit fields; a .blkw pad pushes the target out of reach) so that everything before k emits and k fails. For every program the single-fault space is swept completely: no fault; for every mutating file-system call j = 1..J of a fault-free run of the same scenario (J measured through the shim): ENOSPC, EIO, EINTR one-shot, sticky ENOSPC, short write of 1 byte, write of 0 bytes; EACCES and EMFILE on the first call; destination /dev/full; RLIMIT_FSIZE at every byte 0..length with SIGXFSZ ignored (a genuine short write followed by EFBIG); destination inside a missing directory; destination is a directory; every third program also 6 random double faults. Faults are addressed by ordinal of mutating call, so the plan stays meaningful for implementations that buffer or use a temporary file plus rename. Oracle per process: (exit status 0 and destination == complete object) or (status != 0 and destination as before: absent, previous bytes, still the device node, still the directory); a panic counts as non-zero. evaluations counts programs; `processes` in other_counters counts fault runs. Non-trivial: a sweep of at least 2 faults; distinct = distinct (program, object length, failing stage, number of faults).".into()
+        "Scenario = (program, destination pre-state absent/present, fault). Programs: generated valid programs, half of them with one out-of-range label reference planted at a random statement k (9-, 10- and 11-bit fields; a .blkw pad pushes the target out of reach) so that everything before k emits and k fails. For every program the single-fault space is swept completely: no fault; for every mutating file-system call j = 1..J of a fault-free run of the same scenario (J measured through the shim): ENOSPC, EIO, EINTR one-shot, sticky ENOSPC, short write of 1 byte, write of 0 bytes, the process killed (SIGKILL) right before call j, the process killed right after call j; EACCES and EMFILE on the first call; destination /dev/full; RLIMIT_FSIZE at every byte 0..length with SIGXFSZ ignored (a genuine short write followed by EFBIG); destination inside a missing directory; destination is a directory; every third program also 6 random double faults. Faults are addressed by ordinal of mutating call, so the plan stays meaningful for implementations that buffer or use a temporary file plus rename. Oracle per process: (exit status 0 and destination == complete object) or (status != 0 and destination as before: absent, previous bytes, still the device node, still the directory); a panic counts as non-zero; a killed process has no status to be consistent with, so after a crash the destination must be the old state or the complete new file, never anything in between. evaluations counts programs; `processes` in other_counters counts fault runs. Non-trivial: a sweep of at least 2 faults; distinct = distinct (program, object length, failing stage, number of faults).".into()
     }
     fn assumptions(&self) -> Vec<String> {
         vec![
